@@ -120,6 +120,13 @@ func Run(job *kjob.Job, o RunOpts) (*RunResult, error) {
 	cmd.Env = append([]string{"PATH=/usr/bin:/bin", "HOME=/nonexistent", "GOGC=off"}, o.Env...)
 	var stdout, stderr bytes.Buffer
 	cmd.Stdout, cmd.Stderr = &stdout, &stderr
+	// on timeout kill the whole process group (strace and its tracee) and do not wait for ever for the pipes
+	if cmd.SysProcAttr == nil {
+		cmd.SysProcAttr = &syscall.SysProcAttr{}
+	}
+	cmd.SysProcAttr.Setpgid = true
+	cmd.Cancel = func() error { return syscall.Kill(-cmd.Process.Pid, syscall.SIGKILL) }
+	cmd.WaitDelay = 2 * time.Second
 	runErr := cmd.Run()
 	res := &RunResult{Stderr: stderr.String()}
 	if ctx.Err() == context.DeadlineExceeded {
